@@ -60,15 +60,16 @@ func (c *Consistent) hash(key string) int64 {
 // pick get a  node
 func (c *Consistent) pick(sessions *sync.Map, key string) getty.Session {
 	hashKey := c.hash(key)
+	c.RLock()
 	index := sort.Search(len(c.sortedHashNodes), func(i int) bool {
 		return c.sortedHashNodes[i] >= hashKey
 	})
 
 	if index == len(c.sortedHashNodes) {
+		c.RUnlock()
 		return RandomLoadBalance(sessions, key)
 	}
 
-	c.RLock()
 	session, ok := c.hashCircle[c.sortedHashNodes[index]]
 	if !ok {
 		c.RUnlock()
@@ -78,7 +79,7 @@ func (c *Consistent) pick(sessions *sync.Map, key string) getty.Session {
 
 	if session.IsClosed() {
 		go c.refreshHashCircle(sessions)
-		return c.firstKey()
+		return RandomLoadBalance(sessions, key)
 	}
 
 	return session
@@ -108,6 +109,8 @@ func (c *Consistent) refreshHashCircle(sessions *sync.Map) {
 		return sortedHashNodes[i] < sortedHashNodes[j]
 	})
 
+	c.Lock()
+	defer c.Unlock()
 	c.sortedHashNodes = sortedHashNodes
 	c.hashCircle = hashCircle
 }
@@ -156,6 +159,9 @@ func ConsistentHashLoadBalance(sessions *sync.Map, xid string) getty.Session {
 	if consistentInstance == nil {
 		newConsistenceInstance(sessions)
 	}
+
+	// the ring has to reflect the sessions registered now: connections opened or lost since it was built
+	consistentInstance.refreshHashCircle(sessions)
 
 	// pick a node
 	return consistentInstance.pick(sessions, xid)
